@@ -74,13 +74,13 @@ def gen(rng, sid, N0, R, njoins, leave):
         ops.append({"op": "dump", "d": d, "k": k})
     ops.append({"op": "scan", "c": "cc", "d": d})
     ops.append({"op": "scan", "c": "emb%d" % live[0], "d": d})
-    cluster = {"members": N0, "replicas": R, "partitions": rng.choice([7, 13]), "table": rng.choice([256, 512]), "evict_workers": 1}
+    # no timer-driven balancer / routing push: the hand-over advances only at the explicit push / balance / waitstable
+    # operations, so that every other operation falls BETWEEN its steps (operations racing a move in flight are D43)
+    cluster = {"members": N0, "replicas": R, "partitions": rng.choice([7, 13]), "table": rng.choice([256, 512]), "evict_workers": 1,
+               "balancer_ms": 3600000, "push_ms": 3600000}
     model = (sid % 2 == 0) and not leave and not expiring
     if model:
-        # model correspondence: a white-box dump after every operation; no timer-driven balancer / routing push, so that
-        # every step between two dumps is one operation of the scenario
-        cluster["balancer_ms"] = 3600000
-        cluster["push_ms"] = 3600000
+        # model correspondence: a white-box dump after every operation
         ops2 = [{"op": "hstate", "d": d}]
         for o in ops:
             ops2.append(o)
@@ -341,7 +341,7 @@ def run(res):
     kf40 = vlib.match_known(PID, {"kind": "copies-colocated-on-lost-member"})
     for sc in scs:
         r = results[sc["id"]]
-        if r.get("env", {}).get("error"):
+        if r.get("env", {}).get("error") or r.get("env", {}).get("flapped"):
             envfail += 1
             continue
         if sc.get("_crash") and kf40 and len(r["obs"]) >= len(sc["ops"]):
@@ -373,7 +373,7 @@ def run(res):
     fired = {}
     for sc in scs:
         r = results[sc["id"]]
-        if not (sc.get("_model") or sc.get("_crash")) or r.get("env", {}).get("error") or len(r["obs"]) < len(sc["ops"]):
+        if not (sc.get("_model") or sc.get("_crash")) or r.get("env", {}).get("error") or r.get("env", {}).get("flapped") or len(r["obs"]) < len(sc["ops"]):
             continue
         if sc.get("_crash"):
             f = [ob.get("fired") for op, ob in zip(sc["ops"], r["obs"]) if op["op"] == "fired"]
